@@ -87,6 +87,11 @@ func (e *Engine) NewHint(f solver.Hint, nbOutputs int, inputs ...frontend.Variab
 	seq := e.hintSeq
 	e.hintSeq++
 	name := hintName(f)
+	if !hintRegistered(f) {
+		// a real prover's solver resolves hints by id in gnark's registry: an unregistered
+		// hint means no witness can be computed for any input
+		e.fail("hint_not_registered", "hint "+name+" is not registered with gnark's solver (solver.RegisterHint): a compiled circuit using it cannot be solved")
+	}
 	in := make([]*V, len(inputs))
 	for i := range inputs {
 		in[i] = e.val(inputs[i])
@@ -375,4 +380,19 @@ func trimToRepo(pcs []uintptr) []uintptr {
 		}
 	}
 	return pcs
+}
+
+var (
+	regOnce sync.Once
+	regIDs  map[solver.HintID]bool
+)
+
+func hintRegistered(f solver.Hint) bool {
+	regOnce.Do(func() {
+		regIDs = map[solver.HintID]bool{}
+		for _, h := range solver.GetRegisteredHints() {
+			regIDs[solver.GetHintID(h)] = true
+		}
+	})
+	return regIDs[solver.GetHintID(f)]
 }
